@@ -79,6 +79,10 @@ func freshOut(p *ProvDesc, oc, k, j, pos int) Val {
 	switch oc {
 	case cTE:
 		if p.FailMask&(1<<uint(k%8)) != 0 {
+			if (p.Idx+k)%5 == 4 {
+				// the classic slip: a nil *Err returned through the interface -- a non-nil error all the same
+				return Val{cError, typedNilTag}
+			}
 			return Val{cError, freshTag(p.Idx, k, j, pos)}
 		}
 		return Val{cTE, 0}
